@@ -136,7 +136,7 @@ ADD = {
                 text=' The closed-form line is proved to MINIMISE the sum of squared residuals (lsq_minimises). The naive sum is regenerated from the source text on every run (Gen/VecFormulas.lean) and proved equal to the model (naiveDamage_eq).',
                 note=' np.polyfit is compared with the closed form, which is the least-squares minimiser by theorem.'),
     'C10': dict(technique=' + Lean 4 proof about an EXECUTABLE model of the whole hlrfFORM loop, mvalFOSM and the Nataf map for normal / lognormal marginals (Model/{Linalg,Chol,Nataf,Form}.lean), tied to the implementation iterate by iterate (evaluation points of g observed through the callback)',
-                text=' About the executable loop model (Proofs/C10Loop.lean): every iterate has |u| = |beta|; when the loop leaves through its tolerance test |g(x)| < tol |grad G|; the whole loop (outcome, number of steps, every iterate) is invariant under positive rescaling of g; for a linear limit state of normal variables with any correlation the loop RETURNS for every iter >= 1 and tol > 0 with beta = (d + sum c_i mu_i) / |L^T D c|, the design point on the limit state, |L^T D c|^2 = c^T D rho D c when L L^T = rho; no feasible point of the constrained formulation is closer to the origin (agreement with coptFORM); for L = 1 this is the regenerated mvalFOSM index (fosmBeta_eq).',
+                text=' About the executable loop model (Proofs/C10Loop.lean): whenever the model of hlrfFORM returns, the returned (beta, u*, x*) is one HL-RF step from some iterate, x* = T(u*), |u*| = |beta| and, unless iter = 1, |g| < tol |grad G| at the last evaluation point (C10m_hlrf_return); every iterate has |u| = |beta|; when the loop leaves through its tolerance test |g(x)| < tol |grad G|; the whole loop (outcome, number of steps, every iterate) is invariant under positive rescaling of g; for a linear limit state of normal variables with any correlation the loop RETURNS for every iter >= 1 and tol > 0 with beta = (d + sum c_i mu_i) / |L^T D c|, the design point on the limit state, |L^T D c|^2 = c^T D rho D c when L L^T = rho; no feasible point of the constrained formulation is closer to the origin (agreement with coptFORM); for L = 1 this is the regenerated mvalFOSM index (fosmBeta_eq).',
                 note=' The executable loop model is compared with hlrfFORM on random problems (normal / lognormal marginals, linear and quadratic limit states, random tol / iter): outcome, number of iterations, every evaluation point, beta, uCoord, xCoord at 1e-7 relative (looser only where the implementation itself loses the upper tail, DESIGN 7).'),
     'C11': dict(technique=' + Lean 4 proof about an EXECUTABLE model of the transformation for normal / lognormal marginals including its own Cholesky factorisation and triangular inverse (Model/{Chol,Nataf}.lean), compared with the implementation (L, L^-1, rhoZ, getU, getX, both matrices)',
                 text=' About the executable model (Proofs/C11Chol.lean, C11Model.lean): the outer-product Cholesky algorithm returns a lower-triangular L with positive diagonal and L L^T = A for every symmetric A with positive pivots, and on every symmetric positive-definite A all pivots are positive (chol_pivots_of_posdef); forward substitution returns X with L X = X L = 1; for the model built from them X->U->X and U->X->U are the identity on the support, the two returned matrices are inverse to each other, each is entrywise the partial derivative (HasDerivAt) of the other map; lognormal pair: the closed-form latent correlation reproduces the prescribed one.',
